@@ -626,7 +626,11 @@ def shrink_case(rel, inp, workdir, want, rounds=25):
 
     want = 'holds' (keep holds=false) or 'agree' (keep agree=false)."""
     cur = inp
-    deadline = time.time() + float(os.environ.get("VERIF_SHRINK_S", "45"))
+    # at most VERIF_SHRINK_S seconds per case and 2x that per check run
+    per = float(os.environ.get("VERIF_SHRINK_S", "40"))
+    if not hasattr(shrink_case, "run_deadline"):
+        shrink_case.run_deadline = time.time() + 2 * per
+    deadline = min(time.time() + per, shrink_case.run_deadline)
     for r in range(rounds):
         if time.time() > deadline:
             break
